@@ -198,7 +198,8 @@ def main():
         rc, out = run(["go", "run", ".", "-repo", REPO, "-out", os.path.join(LEAN, "SlipVerif", "Gen")],
                       cwd=os.path.join(ROOT, "extract"), env=GOENV)
         reference_tables = []  # Gen modules replaced by their committed reference copy for this run
-        if rc == 3:
+        if rc == 3 or (rc != 0 and "exit status 3" in out and re.search(r"^EXTRACT-FAILED ", out, re.M)):
+            # (`go run` reports the program's exit status 3 as "exit status 3" and exits 1 itself)
             # a generator no longer understands the source it reads (renamed table, changed literal
             # shape …): the tie of every property that depends on that module is broken. The other
             # modules were regenerated. Continue with the reference copy of the failed module so that
